@@ -580,6 +580,18 @@ func (ex *Exec) unify(a, b Val, env *Env) (Val, Val) {
 	if b.Kind == VNil {
 		return a, ex.nilLike(a)
 	}
+	// function values: bound methods and plain functions have a term identity;
+	// any other closure gets an opaque one (sound: it equals nothing known)
+	fnTerm := func(v Val) Val {
+		if v.Kind != VClosure {
+			return v
+		}
+		if t, ok := ex.closureTerm(env.st, v); ok {
+			return TV(t, v.Ty)
+		}
+		return TV(env.st.fresh("closure", SortInt), v.Ty)
+	}
+	a, b = fnTerm(a), fnTerm(b)
 	if a.Kind != VTerm || b.Kind != VTerm {
 		specFail("comparison of executor-level values")
 	}
